@@ -229,8 +229,8 @@ CHECKS.update({
                 "file, every get returns the value at its lookup and the merge never changes the map; the variant without the guard "
                 "is refuted. A third model (puts that replace the active file: append, create the next file, publish; per-reader, per-file "
                 "mappings opened at first use and renewed when they do not cover the record) proves for every schedule that no reader finds "
-                "a file missing or a record outside its mapping, that every get returns the value at its lookup and that no step of a put "
-                "waits for a reader; the variant that never renews is refuted. Partial: the three models are not composed. The check forces 8 "
+                "a file missing or a record outside its mapping, that every get returns the value at its lookup, that the history is "
+                "linearizable (same commit-point theorem) and that no step of a put waits for a reader; the variant that never renews is refuted. Partial: the three models are not composed. The check forces 8 "
                 "targeted interleavings on the real threads by parking at verif schedule points (four of them are also run through the models "
                 "and the per-thread results compared), runs free stress with merges and rollovers, and decides every timed history "
                 "with a Wing-Gong-Lowe linearizability search; probes afterwards that reads are still served.",
